@@ -18,12 +18,12 @@ import (
 
 // One concrete makefile line together with its abstraction for Model/Indent.v.
 type c01Sym struct {
-	text    string
-	kind    int    // index into dkind (0 KIf .. 10 KOther, 11 KNone)
-	cond    string // "N" or "C<vars>|<files>"; only looked at for .if/.elif
-	forvars string
-	comment bool
-	bl3     bool // a guard when the file is called buildlink3.mk
+	text           string
+	kind           int    // index into dkind (0 KIf .. 10 KOther, 11 KNone)
+	cond           string // "N" or "C<vars>|<files>"; only looked at for .if/.elif
+	forvars        string
+	comment        bool
+	bl3            bool // a guard when the file is called buildlink3.mk
 	mayBeGuardLine bool
 }
 
